@@ -39,9 +39,16 @@ def main():
     files = re.findall(r'^\+\+\+ b/(\S+)', open(patch).read(), re.M)
     meta['files'] = files
     crate = files[0].split('/')[0]
-    # --- 1. independent confirmation
+    # --- 1. independent confirmation  (SEEDED_PHASE=confirm: only this step, result kept next to the source as
+    #        meta_confirm.json — it does not touch /repo; SEEDED_PHASE=detect: steps 2 and 3 with that stored result)
+    phase = os.environ.get('SEEDED_PHASE', 'all')
+    cfile = os.path.join(src, 'meta_confirm.json')
+    if phase == 'detect':
+        meta['confirmed'] = json.load(open(cfile))
     keep = os.environ.get('SEEDED_KEEP_SCRATCH') == '1'     # batches: reuse the scratch worktree's build output between changes
-    if keep and os.path.exists(os.path.join(SCRATCH, '.git')):
+    if phase == 'detect':
+        pass
+    elif keep and os.path.exists(os.path.join(SCRATCH, '.git')):
         sh(['git', 'checkout', '--detach', '-f', sh(['git', '-C', REPO, 'rev-parse', 'HEAD'])[1].strip()], cwd=SCRATCH)
         sh(['git', 'clean', '-fd', '-e', 'target'], cwd=SCRATCH)
     else:
@@ -50,6 +57,8 @@ def main():
         rc, out = sh(['git', '-C', REPO, 'worktree', 'add', '--detach', SCRATCH, 'HEAD'])
         assert rc == 0, out
     try:
+        if phase == 'detect':
+            raise StopIteration
         rc, out = sh(['git', 'apply', patch], cwd=SCRATCH)
         meta['confirmed']['applies'] = rc == 0
         if rc != 0:
@@ -80,13 +89,21 @@ def main():
                 ok = 'test result: ok' in out and 'FAILED' not in out
                 meta['confirmed']['demo_without_change'] = 'passes' if ok else 'FAILS: ' + out[-300:]
                 meta['confirmed']['demo_cmd'] = cmd
+    except StopIteration:
+        pass
     finally:
-        if keep:
+        if phase == 'detect':
+            pass
+        elif keep:
             sh(['git', 'checkout', '--', '.'], cwd=SCRATCH)
             sh(['git', 'clean', '-fd', '-e', 'target'], cwd=SCRATCH)
         else:
             sh(['git', '-C', REPO, 'worktree', 'remove', '--force', SCRATCH])
             shutil.rmtree(SCRATCH, ignore_errors=True)
+    if phase == 'confirm':
+        json.dump(meta['confirmed'], open(cfile, 'w'), indent=1)
+        print(sid, meta['confirmed'])
+        return
     # --- 2. detection by the checks
     rc, out = sh(['git', '-C', REPO, 'status', '--porcelain'])
     assert out.strip() == '', '/repo is not clean: ' + out
